@@ -297,3 +297,28 @@ def ctor_calls_agree_clause(ctx, res, clause, prop, cid, cls_name):
                                     'carry the configuration it was built from' % (f.qualname, cls_name, norm(a), p)))
     clause.instance('%d construction(s) of %s in the package pass same-named values to same-named options' % (n_calls, cls_name), cls_name, True)
     clause.evaluations += n_calls
+
+
+# ---------------------------------------------------------------------------------------------------------------------
+# a file that is written whole is opened truncating
+# ---------------------------------------------------------------------------------------------------------------------
+def nontruncating_writes(fn_node):
+    """write-opens of fn_node that keep the old content of an existing file: os.open for writing without O_TRUNC (or O_EXCL),
+    open(..., 'r+' / 'a...')"""
+    out = []
+    for n in ast.walk(fn_node):
+        if not isinstance(n, ast.Call):
+            continue
+        f = norm(n.func)
+        if f in ('os.open',) and len(n.args) >= 2:
+            flags = norm(n.args[1])
+            if ('O_WRONLY' in flags or 'O_RDWR' in flags) and 'O_TRUNC' not in flags and 'O_EXCL' not in flags:
+                out.append((n, 'os.open(..., %s) opens for writing without O_TRUNC' % flags))
+        if f in ('open', 'io.open', 'os.fdopen', 'codecs.open'):
+            mode = n.args[1].value if len(n.args) > 1 and isinstance(n.args[1], ast.Constant) else None
+            for k in n.keywords:
+                if k.arg == 'mode' and isinstance(k.value, ast.Constant):
+                    mode = k.value.value
+            if isinstance(mode, str) and (mode.startswith('a') or mode.startswith('r+')) and f != 'os.fdopen':
+                out.append((n, 'mode %r keeps the existing content' % mode))
+    return out
